@@ -27,25 +27,12 @@ Theorem C11_cnf_complete : forall asimp, simp_sound asimp -> forall f st cl st' 
 Proof. exact cnf_complete. Qed.
 Print Assumptions C11_cnf_complete.
 
-(* full soundness is FALSE of the faithful model: cnf(And(a, FALSE)) = {{a}} *)
-Theorem C11_cnf_sound_refuted :
-  exists asimp f st cl st' J, simp_sound asimp /\ start_ok f st /\
-    cnf_convert asimp f st = Some (cl, st') /\ sat J cl = true /\ ~ holds J f.
-Proof. exact cnf_sound_refuted. Qed.
-Print Assumptions C11_cnf_sound_refuted.
-
-(* the provable part: when the top-level clean-up empties no clause *)
-Theorem C11_cnf_sound_partial : forall asimp, simp_sound asimp -> forall f st cl st' J, start_ok f st ->
-  cnf_convert asimp f st = Some (cl, st') -> cnf_emptied asimp f st = false ->
-  sat J cl = true -> holds J f.
-Proof. exact cnf_sound_partial. Qed.
-Print Assumptions C11_cnf_sound_partial.
-
-(* and when it does, the input is unsatisfiable (so FALSE_CNF is the correct answer there) *)
-Theorem C11_cnf_emptied_unsat : forall asimp, simp_sound asimp -> forall f st I, start_ok f st ->
-  cnf_emptied asimp f st = true -> ~ holds I f.
-Proof. exact cnf_emptied_unsat. Qed.
-Print Assumptions C11_cnf_emptied_unsat.
+(* soundness: every interpretation satisfying the output satisfies the input
+   (the clean-up returns FALSE_CNF when it empties a clause: pysmt 7e10806) *)
+Theorem C11_cnf_sound : forall asimp, simp_sound asimp -> forall f st cl st' J, start_ok f st ->
+  cnf_convert asimp f st = Some (cl, st') -> sat J cl = true -> holds J f.
+Proof. exact cnf_sound. Qed.
+Print Assumptions C11_cnf_sound.
 
 Theorem C11_as_formula : forall J cl, holds J (as_formula cl) <-> sat J cl = true.
 Proof. exact as_formula_holds. Qed.
@@ -64,27 +51,16 @@ Theorem C11_pol_complete : forall asimp, simp_sound asimp -> forall f st cl st' 
 Proof. exact pol_complete. Qed.
 Print Assumptions C11_pol_complete.
 
-Theorem C11_pol_sound_refuted :
-  exists asimp f st cl st' J, simp_sound asimp /\ start_ok f st /\
-    pol_convert asimp f st = Some (cl, st') /\ sat J cl = true /\ ~ holds J f.
-Proof. exact pol_sound_refuted. Qed.
-Print Assumptions C11_pol_sound_refuted.
+Theorem C11_pol_sound : forall asimp, simp_sound asimp -> forall f st cl st' J, start_ok f st ->
+  pol_convert asimp f st = Some (cl, st') -> sat J cl = true -> holds J f.
+Proof. exact pol_sound. Qed.
+Print Assumptions C11_pol_sound.
 
-Theorem C11_pol_sound_partial : forall asimp, simp_sound asimp -> forall f st cl st' J, start_ok f st ->
-  pol_convert asimp f st = Some (cl, st') -> pol_emptied asimp f st = false ->
-  sat J cl = true -> holds J f.
-Proof. exact pol_sound_partial. Qed.
-Print Assumptions C11_pol_sound_partial.
-
-Theorem C11_pol_emptied_unsat : forall asimp, simp_sound asimp -> forall f st I, start_ok f st ->
-  pol_emptied asimp f st = true -> ~ holds I f.
-Proof. exact pol_emptied_unsat. Qed.
-Print Assumptions C11_pol_emptied_unsat.
-
-(* ---- Ackermannization ----
-   Only the refutation of the shape clause is a theorem; see proofs/Ackermann_proofs.v. *)
+(* ---- Ackermannization (code repaired by build/fixes/C11_ackermann_nested.diff) ----
+   Shape is a theorem; ack_complete / ack_sound are not proved (correspondence + search only). *)
 From PySMT.models Require Import Ackermann.
 From PySMT.proofs Require Import Ackermann_proofs.
-Theorem C11_ack_shape_refuted : exists f st, has_app (fst (ackermannize f st)) = true.
-Proof. exact ack_shape_refuted. Qed.
-Print Assumptions C11_ack_shape_refuted.
+Theorem C11_ack_shape : forall f guess names,
+  has_app (fst (ackermannize f (init_astate guess names))) = false.
+Proof. exact ack_shape. Qed.
+Print Assumptions C11_ack_shape.
